@@ -34,7 +34,7 @@ pub fn panic_message(e: &(dyn std::any::Any + Send)) -> String {
 // scans the slots and, when one call exceeds HANG_SECS, writes the input to the hang file and
 // ends the process with exit code 3 (the stuck thread cannot be stopped any other way).
 
-pub const HANG_SECS: u64 = 30;
+pub const HANG_SECS: u64 = 60;
 pub const HANG_EXIT_CODE: i32 = 3;
 
 struct Slot {
